@@ -118,6 +118,7 @@ def run(tier):
     with warnings.catch_warnings():
         warnings.simplefilter('ignore')
         for _ in range(4000 if big else 350):
+            common.tick()
             spec, nrng = gen_pipeline(r)
             seeds = {g: r.randint(0, 10 ** 6) for g in range(1, nrng + 1)}
             m = r.randint(1, 3)
